@@ -851,8 +851,15 @@ func ruleR04c(c *Check, w *walkerInfo) {
 		dom := false
 		for _, a := range adds {
 			if r, _ := engine.PathExists(w.Walk, nil, engine.IsInstr(g), engine.PathQuery{CutInstr: engine.IsInstr(a)}); !r {
-				if lpA, lpG := engine.LoopOf(a), engine.LoopOf(g); (lpA == nil) == (lpG == nil) && (lpA == nil || lpA.Header == lpG.Header) {
+				lpA, lpG := engine.LoopOf(a), engine.LoopOf(g)
+				if (lpA == nil) == (lpG == nil) && (lpA == nil || lpA.Header == lpG.Header) {
 					dom = true
+				}
+				// one Add(len(xs)) in front of the loop that starts one routine per element of xs
+				if lpA == nil && lpG != nil && lpG.RangedValue() != nil && len(a.Common().Args) == 2 {
+					if coll, isLen := lenArg(a.Common().Args[1]); isLen && (sameSlice(coll, lpG.RangedValue()) || engine.ExprKey(coll) == engine.ExprKey(lpG.RangedValue())) && lpG.IsFullRange() {
+						dom = true
+					}
 				}
 			}
 		}
@@ -1095,6 +1102,22 @@ func ruleR04d(c *Check) {
 				bad = "sender goroutine's spawn site not found"
 				continue
 			}
+			// the go statement may sit in a small helper of the owner (`group.start(func() error {…})`):
+			// what counts is how often the owner calls that helper
+			for hop := 0; hop < 2 && engine.TopFunc(spawn.Parent()) != engine.TopFunc(owner); hop++ {
+				var up ssa.Instruction
+				n := 0
+				for _, cs := range c.G.CallersOf(engine.TopFunc(spawn.Parent())) {
+					if _, isGo := cs.(*ssa.Go); !isGo {
+						up = cs
+						n++
+					}
+				}
+				if n != 1 {
+					break
+				}
+				spawn = up
+			}
 			lp := engine.LoopOf(spawn)
 			if lp == nil || lp.RangedValue() == nil {
 				bad = "the sending goroutines are not spawned in a range loop"
@@ -1282,6 +1305,8 @@ func ruleR04e(c *Check) {
 					okT := false
 					why := ""
 					switch {
+					case syncPoolHoldsOnly(c, x):
+						okT, why = true, "the value comes from a sync.Pool whose New function and every Put supply the asserted type"
 					case syncMapHoldsOnly(c, x):
 						okT, why = true, "the value comes from a sync.Map field into which only values of the asserted type are ever stored"
 					case strings.HasPrefix(name, "console.") || strings.HasPrefix(name, "(*console.") || strings.HasPrefix(name, "(console."):
@@ -1302,6 +1327,90 @@ func ruleR04e(c *Check) {
 
 // syncMapHoldsOnly: the asserted value was loaded from a sync.Map held in a struct field, and every
 // Store/LoadOrStore/Swap into that field (anywhere in first-party code) stores a value of the asserted type.
+// syncPoolHoldsOnly: the asserted value is the result of Get on a pool (a package variable or a struct field)
+// whose New function returns the asserted type and into which only values of that type are Put.
+func syncPoolHoldsOnly(c *Check, x *ssa.TypeAssert) bool {
+	poolKey := ""
+	for _, o := range engine.Origins(x.X) {
+		call, _ := engine.CallOf(o)
+		if call == nil || engine.CalleeName(call) != "(*sync.Pool).Get" {
+			return false
+		}
+		switch call.Common().Args[0].(type) {
+		case *ssa.Global, *ssa.FieldAddr:
+		default:
+			return false
+		}
+		k := engine.ExprKey(call.Common().Args[0])
+		if poolKey != "" && k != poolKey {
+			return false
+		}
+		poolKey = k
+	}
+	if poolKey == "" {
+		return false
+	}
+	for _, s := range c.G.CallsTo("(*sync.Pool).Put") {
+		if engine.ExprKey(s.Common().Args[0]) != poolKey {
+			switch s.Common().Args[0].(type) {
+			case *ssa.Global, *ssa.FieldAddr:
+				continue
+			}
+			return false
+		}
+		mi, ok := s.Common().Args[1].(*ssa.MakeInterface)
+		if !ok || !types.Identical(mi.X.Type(), x.AssertedType) {
+			return false
+		}
+	}
+	// the New function of this pool
+	newOK := false
+	for _, st := range storesToField(c, fk("sync.Pool", "New")) {
+		fa, ok := st.Addr.(*ssa.FieldAddr)
+		if !ok {
+			continue
+		}
+		same := engine.ExprKey(fa.X) == poolKey
+		// a composite literal is built in a temporary and then copied into the variable
+		if al, isAl := fa.X.(*ssa.Alloc); isAl && !same {
+			for _, ref := range *al.Referrers() {
+				if ld, isLd := ref.(*ssa.UnOp); isLd {
+					for _, r2 := range *ld.Referrers() {
+						if cp, isSt := r2.(*ssa.Store); isSt && cp.Val == ssa.Value(ld) && engine.ExprKey(cp.Addr) == poolKey {
+							same = true
+						}
+					}
+				}
+			}
+		}
+		if !same {
+			continue
+		}
+		var nf *ssa.Function
+		switch v := st.Val.(type) {
+		case *ssa.Function:
+			nf = v
+		case *ssa.MakeClosure:
+			nf, _ = v.Fn.(*ssa.Function)
+		}
+		if nf == nil {
+			return false
+		}
+		newOK = true
+		for _, r := range engine.Returns(nf) {
+			for _, o := range engine.Origins(r.Results[0]) {
+				mi, isMI := o.(*ssa.MakeInterface)
+				if !isMI || !types.Identical(mi.X.Type(), x.AssertedType) {
+					if r0, isMI0 := r.Results[0].(*ssa.MakeInterface); !isMI0 || !types.Identical(r0.X.Type(), x.AssertedType) {
+						return false
+					}
+				}
+			}
+		}
+	}
+	return newOK
+}
+
 func syncMapHoldsOnly(c *Check, x *ssa.TypeAssert) bool {
 	fieldOf := func(recv ssa.Value) (engine.FieldKey, bool) {
 		if fa, ok := recv.(*ssa.FieldAddr); ok {
